@@ -83,6 +83,8 @@ def run(tier):
     thorough = tier == "thorough"
     binary = common.build_harness()
     judge.model_check("Resources.tla", "MC_Resources.cfg", o, "exhaustive: open / flush / compact / close")
+    # the same invariants for EVERY value of MaxTables / MaxCycles / K (the TLC run above fixes 5 / 8 / 1): inductive invariant, Apalache + TLAPS
+    judge.inductive_proof(o, "ResourcesInd.tla", "ResourcesProof.tla", what="Resources.tla: HandlesBounded, ClosedReleasesAll, NoGrowthWithCycles for all constants")
     nsess = 48 if thorough else 4
     jobs = [("s%d" % i, session(rng, rng.choice([200, 500, 1200]) if thorough else rng.choice([50, 120]), bg=(i % 2 == 1))) for i in range(nsess)]
 
